@@ -32,13 +32,16 @@ test='''
         let r = handler.add_mem_region(&region, f);
         assert!(r.is_err());
         let after = mem.memory().num_regions();
-        assert_eq!(before, after, "a FAILED ADD_MEM_REG changed the guest memory the backend sees");
+        // (the handler is not dropped: without exit events its Drop would wait for the worker thread forever)
+        eprintln!("VERIF-DEMO add_mem_region returned Err; regions before={} after={}", before, after);
+        if before != after { eprintln!("a FAILED ADD_MEM_REG changed the guest memory the backend sees"); }
+        std::process::exit(if before == after { 0 } else { 3 });
     }
 '''
 i=s.rindex('}')
 open(p,'w').write(s[:i]+test+s[i:])
 PY
-CARGO_TARGET_DIR=/tmp/wt/demo_f_target cargo test -p vhost-user-backend --offline --lib verif_demo_failed_add 2>&1 | tee /tmp/wt/demo_f.log | grep -E "panicked|FAILED ADD|test result|^error" | head
+CARGO_TARGET_DIR=/tmp/wt/demo_f_target cargo test -p vhost-user-backend --offline --lib verif_demo_failed_add -- --nocapture 2>&1 | tee /tmp/wt/demo_f.log | grep -E "panicked|FAILED ADD|test result|^error" | head
 grep -q "a FAILED ADD_MEM_REG changed the guest memory" /tmp/wt/demo_f.log; rc=$?
 cd /; git -C /repo worktree remove --force $WT; rm -rf /tmp/wt/demo_f_target
 exit $rc
